@@ -9,7 +9,7 @@ package formatter
 // make tokens and queue whitespace are pinned by exact-trace contracts:
 //@ trace helper newToken := [] $0.getFreeFloating() => &local:t0
 //@ trace helper newSemicolonTkn := [] $0.newToken(59, ";"); store &$0.lastSemiColon := result($0.newToken(59, ";")) => $0.lastSemiColon
-//@ trace helper formatList := [] loop(&make:t2,$1){[(idx != (len($1) - 1))] $1[idx].Accept($0); $0.newToken(convert<token.ID>($2), [$2]); store &make:t2[idx] := result($0.newToken(convert<token.ID>($2), [$2])); $0.addFreeFloating(57416, " ") | [!((idx != (len($1) - 1)))] $1[idx].Accept($0)} => make:t2
+//@ trace helper formatList := [(len($1) == 0)]  => nil || [!((len($1) == 0))] loop(&make:t4,$1){[(idx != (len($1) - 1))] $1[idx].Accept($0); $0.newToken(convert<token.ID>($2), [$2]); store &make:t4[idx] := result($0.newToken(convert<token.ID>($2), [$2])); $0.addFreeFloating(57416, " ") | [!((idx != (len($1) - 1)))] $1[idx].Accept($0)} => make:t4
 //@ trace helper formatStmts := [] loop(*$1){[is(*$1[idx],*ast.StmtInlineHtml) && ($0.lastSemiColon != nil)] store &$0.lastSemiColon := nil; append($0.lastSemiColon.Value, [63, 62]); store &$0.lastSemiColon.Value := append($0.lastSemiColon.Value, [63, 62]); *$1[idx].Accept($0) | [is(*$1[idx],*ast.StmtInlineHtml) && !(($0.lastSemiColon != nil))] store &$0.lastSemiColon := nil; insert(*$1, (idx + loopvar(insertCounter)), [&local:t35]); store $1 := result(insert(*$1, (idx + loopvar(insertCounter)), [&local:t35])); *$1[idx].Accept($0); store next(insertCounter) := (loopvar(insertCounter) + 1) | [!(is(*$1[idx],*ast.StmtInlineHtml))] store &$0.lastSemiColon := nil; $0.addFreeFloating(57416, "\n"); $0.addIndent(); *$1[idx].Accept($0)}
 //@ trace helper getFreeFloating := [($0.state == 0)] defer resetFreeFloating($0); append([&local:t5], $0.freeFloating); store &$0.freeFloating := append([&local:t5], $0.freeFloating); store &$0.state := 1 => $0.freeFloating || [!(($0.state == 0))] defer resetFreeFloating($0) => $0.freeFloating
 //@ trace helper addFreeFloating := [] append($0.freeFloating, [&local:t2]); store &$0.freeFloating := append($0.freeFloating, [&local:t2])
@@ -21,3 +21,10 @@ package formatter
 //@ trace parsed-nil ExprVariable.DollarTkn : `$name` is one T_VARIABLE token stored in the Identifier child; DollarTkn is set only for `$$a` / `${expr}`, whose Name is not an Identifier
 //@ trace parsed-nil ExprYield.DoubleArrowTkn : present exactly when the Key child is present
 //@ trace parsed-nil ScalarString.MinusTkn : only inside an interpolated string offset (`"$a[-1]"`), where the scanner attaches no trivia
+
+// F2 (no panic on absent optional children): a vertex slot that E-GRAM finds possibly nil at the moment a node is
+// embedded must be tested before `n.Slot.Accept(f)`. Two kinds are half-built carriers of the php5 parser at that
+// moment and never stay in a tree in that state (assumed, listed):
+//@ trace carrier-only ExprMethodCall.Method : php5 builds `->name(args)` from a half-built ExprMethodCall (rule `method`) whose Var and Method are filled when the member-access chain is folded
+//@ trace carrier-only StmtForeach.Stmt : same carrier (see StmtForeach.Expr)
+//@ trace carrier-only StmtForeach.Expr : php5 carries `&$v` and `$k => $v` of a foreach header in half-built StmtForeach values that the foreach action unpacks
